@@ -79,6 +79,12 @@ pub struct Vm<'a> {
     pub depth_uncertain: bool,
     min_len: usize,
     rose_after_dip: bool,
+    /// parts of the stack hidden from the current context by enclosing call/syscall frames
+    hidden_stack: Vec<Vec<u64>>,
+    /// contexts and locals frames of the enclosing (suspended) call frames
+    suspended: Vec<(usize, Vec<Frame>, bool)>,
+    /// canonical text of the complete VM state recorded by the pseudo instruction `@snap`
+    pub snapshot: Option<String>,
 }
 
 /// instructions the instruction reference lists with "(1 cycle)": a single VM operation, for which
@@ -182,6 +188,9 @@ impl<'a> Vm<'a> {
             depth_uncertain: false,
             min_len: 16,
             rose_after_dip: false,
+            hidden_stack: vec![],
+            suspended: vec![],
+            snapshot: None,
         }
     }
 
@@ -346,20 +355,23 @@ impl<'a> Vm<'a> {
             return Err(Stop::DontCare("call inside a syscall".into()));
         }
         let hidden: Vec<u64> = self.stack.split_off(16);
-        let saved_ctx = self.ctx;
+        self.hidden_stack.push(hidden);
+        let frames = std::mem::take(&mut self.frames);
+        self.suspended.push((self.ctx, frames, false));
         self.mem.push(BTreeMap::new());
         self.ctx_fn_hash.push(fn_hash);
         self.ctx = self.mem.len() - 1;
         self.contexts_created += 1;
-        let saved_frames = std::mem::take(&mut self.frames);
         let r = self.run_proc(p);
-        self.frames = saved_frames;
+        let (ctx, frames, _) = self.suspended.pop().unwrap();
+        let hidden = self.hidden_stack.pop().unwrap();
+        self.frames = frames;
         r?;
         if self.stack.len() != 16 {
             return Err(Stop::Fail(Fail::StackDepthOnReturn(self.stack.len())));
         }
         self.stack.extend(hidden);
-        self.ctx = saved_ctx;
+        self.ctx = ctx;
         Ok(())
     }
 
@@ -368,14 +380,19 @@ impl<'a> Vm<'a> {
             return Err(Stop::DontCare("syscall inside a syscall".into()));
         }
         let hidden: Vec<u64> = self.stack.split_off(16);
-        let saved_ctx = self.ctx;
+        self.hidden_stack.push(hidden);
         let saved_caller = self.caller_hash;
         self.caller_hash = self.ctx_fn_hash[self.ctx];
+        // the locals frames of the calling context stay live but are not addressable from the
+        // kernel procedure: suspend them (abstract frames never alias)
+        let frames = std::mem::take(&mut self.frames);
+        self.suspended.push((self.ctx, frames, true));
         self.ctx = 0;
         self.in_syscall = true;
-        // frames of the root context that are still live stay live (their locals must not be
-        // clobbered by the kernel procedure's locals): the abstract frame stack keeps them
         let r = self.run_proc(p);
+        let (ctx, frames, _) = self.suspended.pop().unwrap();
+        let hidden = self.hidden_stack.pop().unwrap();
+        self.frames = frames;
         self.in_syscall = false;
         self.caller_hash = saved_caller;
         r?;
@@ -383,8 +400,39 @@ impl<'a> Vm<'a> {
             return Err(Stop::Fail(Fail::StackDepthOnReturn(self.stack.len())));
         }
         self.stack.extend(hidden);
-        self.ctx = saved_ctx;
+        self.ctx = ctx;
         Ok(())
+    }
+
+    /// canonical text of everything that can influence the future of the run
+    fn take_snapshot(&self) -> String {
+        let mut live: Vec<usize> = self.suspended.iter().map(|s| s.0).collect();
+        live.push(self.ctx);
+        live.push(0);
+        live.sort();
+        live.dedup();
+        // contexts are renumbered by liveness order so that dead contexts do not distinguish states
+        let mems: Vec<String> = live.iter().map(|c| format!("{:?}", self.mem[*c])).collect();
+        let frames = |f: &Vec<Frame>| f.iter().map(|x| format!("{:?}", x.vals)).collect::<Vec<_>>().join("|");
+        let susp: Vec<String> = self
+            .suspended
+            .iter()
+            .map(|(c, f, sys)| format!("{}:{}:{}", live.iter().position(|x| x == c).unwrap(), frames(f), sys))
+            .collect();
+        format!(
+            "stack={:?};hidden={:?};ctx={};mems={:?};frames={};susp={:?};sys={};caller={:?};fnh={:?};adv={:?};unc={}",
+            self.stack,
+            self.hidden_stack,
+            live.iter().position(|x| *x == self.ctx).unwrap(),
+            mems,
+            frames(&self.frames),
+            susp,
+            self.in_syscall,
+            self.caller_hash,
+            self.ctx_fn_hash[self.ctx],
+            self.advice,
+            self.depth_uncertain
+        )
     }
 
     // ---------------------------------------------------------------------------------------
@@ -432,6 +480,10 @@ impl<'a> Vm<'a> {
     }
 
     pub fn exec_op(&mut self, tok: &str) -> Result<(), Stop> {
+        if tok == "@snap" {
+            self.snapshot = Some(self.take_snapshot());
+            return Ok(());
+        }
         self.min_len = self.stack.len();
         self.rose_after_dip = false;
         let r = self.exec_op_inner(tok);
